@@ -43,9 +43,9 @@ def run(tier, seed, pid="C02"):
     # round-change heavy runs with a lagging member: justification rules J1/J2, F+1 jumps, DECIDED catch-up
     rnd += qc.random_schedules(seed, "c02rc", combos, 40 if thorough else 6, 500 if thorough else 300, pbyz=18,
                                ptimeout=12, plag=70, pdup=8)
-    vlib.conformance(o, qc.FAMILY, "QBFTTrace", qc.trace_cfg_of, "c02", rnd, tag="random")
+    vlib.conformance(o, qc.FAMILY, "QBFTTrace", qc.trace_cfg_of, "c02", rnd, tag="random", replay_of=qc.trace_to_schedule)
     vlib.conformance(o, qc.FAMILY, "QBFTTrace", qc.trace_cfg_of, "c02", qc.scenario_schedules(seed, "c02", 6 if thorough else 1),
-                     tag="scenario")
+                     tag="scenario", replay_of=qc.trace_to_schedule)
     tr = vlib.split_traces(vlib.read_ndjson(vlib.workdir(pid) + "/trace_random.ndjson"))
     vlib.binding_selftest(o, qc.FAMILY, "QBFTTrace", qc.trace_cfg_of, tr, qc.mutators())
     decided = sum(1 for t in tr for e in t if e.get("ev") == "Deliver" and e.get("rule") in ("QC", "JD"))
